@@ -405,7 +405,7 @@ def main(tier):
     return code
 
 
-def replay(obj):
+def replay_case(obj):
     if "trail" not in obj:
         return True, obj
     # rebuild the behaviour record from the stored trail (spec-side flags are not needed to re-run it)
